@@ -32,12 +32,12 @@ def main() -> None:
     from sim.core import PROP_MODULES  # pylint: disable=import-outside-toplevel
     import symplyphysics  # pylint: disable=import-outside-toplevel
     assert os.path.abspath(symplyphysics.__file__).startswith(os.path.abspath(REPO)), symplyphysics.__file__
-    from symplyphysics.core.symbols import id_generator  # pylint: disable=import-outside-toplevel
-    base = dict(id_generator._ids)  # pylint: disable=protected-access
+    from sim.observe import COUNTERS  # pylint: disable=import-outside-toplevel
+    base = COUNTERS.snapshot()
     mod = importlib.import_module(PROP_MODULES[prop])
     if hasattr(mod, "zygote_init"):
         mod.zygote_init()
-    after = dict(id_generator._ids)  # pylint: disable=protected-access
+    after = COUNTERS.snapshot()
     proto.write((json.dumps({"ready": True, "base": base, "after_init": after, "pid": os.getpid()}) + "\n").encode())
     proto.flush()
 
